@@ -62,7 +62,18 @@ where
     /// let _inner = writer.finish()?;
     /// # Ok::<(), io::Error>(())
     /// ```
-    pub fn finish(self) -> io::Result<W> {
+    pub fn finish(mut self) -> io::Result<W> {
+        // `GzEncoder::try_finish` can be resumed after an error. `finish` consumes the writer, so
+        // an interrupted call cannot be retried by the caller: retry it here, like `write_all`
+        // does.
+        loop {
+            match self.inner.try_finish() {
+                Ok(()) => break,
+                Err(e) if e.kind() == io::ErrorKind::Interrupted => {}
+                Err(e) => return Err(e),
+            }
+        }
+
         self.inner.finish()
     }
 
